@@ -92,6 +92,7 @@ func GenUniverse(t *rapid.T, o UniverseOpts, c *Case) map[string]UBinding {
 	dirs := map[string][]hx.DirUse{}
 	// crossed names: the first object type is NAMED like the Go type that is bound to the second one
 	// (and is itself bound, explicitly, to another Go type): a name is not a binding once there is one
+	tagged := false
 	crossed := o.Abstract && k >= 2 && rapid.IntRange(0, 3).Draw(t, "crossedNames") == 0
 	c.CrossedNames = crossed
 	for i, gn := range goNames {
@@ -106,6 +107,11 @@ func GenUniverse(t *rapid.T, o UniverseOpts, c *Case) map[string]UBinding {
 		switch mode {
 		case "name":
 			name = gn
+			if rapid.IntRange(0, 2).Draw(t, "tagged"+gn) == 0 {
+				// bound by name, and carrying a directive that has nothing to do with the binding
+				dirs[name] = []hx.DirUse{{Name: "zqtagged"}}
+				tagged = true
+			}
 		case "go-short":
 			dirs[name] = []hx.DirUse{{Name: "go", Args: []hx.KV{{Key: "type", V: hx.Str(gn)}}}}
 		case "go-pkg":
@@ -255,6 +261,9 @@ func GenUniverse(t *rapid.T, o UniverseOpts, c *Case) map[string]UBinding {
 		c.Register = append(c.Register, n)
 	}
 	sortStrings(c.Register)
+	if tagged {
+		s.Dirs = append(s.Dirs, &hx.DirDef{Name: "zqtagged", On: []string{"OBJECT"}})
+	}
 	return bind
 }
 
